@@ -48,7 +48,7 @@ reg("C15", ["c15_endian.c"],
          "and 24 bit (16 bit at every alignment 0..7), 32 bit strided by 211 (quick) or all 2^32 (thorough), wider: "
          "every octet lane x every octet value x 3 fills x 8 alignments, all one- and two-bit patterns and their "
          "complements, boundaries, float classes incl. NaN payloads, seeded random; plus exact-size poisoned-arena "
-         "objects; the unsigned 24/40/48/56-bit setters also get containers with mixed bits above the width. Swaps: all 16/24-bit values, strided/all 32-bit, lanes+bits+random for wider, and constant expressions with |, ^, ?: at top level as arguments. Every codec unit probes stores and loads on caller objects that are not character arrays (uint16_t words, uint32_t, float, double) inside one non-inlined function each. Range predicates: "
+         "objects; the unsigned 24/40/48/56-bit setters also get containers with mixed bits above the width. Swaps: all 16/24-bit values, strided/all 32-bit, lanes+bits+random for wider, and constant expressions with |, ^, ?: at top level as arguments. Every codec unit probes stores and loads on caller objects that are not character arrays (uint16_t words, uint32_t, float, double) inside one non-inlined function each, and works on two mapped pages between two inaccessible ones: data at every straddle of the inner page boundary and on the first and last octets of the mapping, nine patterns each (an access outside the datum faults there in every configuration). Range predicates: "
          "2^i +- 3, extremes, random magnitudes. A signature is (codec or helper, chunk); evaluations counts single "
          "store+load (or swap, predicate) comparisons.",
     assumptions=["a value that does not fit the width of an unsigned 24/40/48/56-bit setter is stored modulo 2^width: the header says the argument may hold such values and is not checked, and the library's own signed setters hand sign-extended values to the unsigned ones"],
@@ -162,7 +162,9 @@ reg("C13", ["c13_lenp.c"],
          "UINT64_MAX into a counting sink; 'dec': 3 decoder entry points x destination capacity len-1/len/len+1 x "
          "octet/chunk sources with random fragmentation x 1..3 frames back to back (chunk sources also exposing a "
          "3..80 octet transfer window through getbuffer; a third of the window-less sources that feed fixed-width 16/32-bit "
-         "prefixes into the memory and buffer decoders return 0 - nothing yet, try again - now and then); 'frag': every fragmentation (2^(L-1) cut masks) of short "
+         "prefixes into the memory and buffer decoders return 0 - nothing yet, try again - now and then; for the "
+         "variable-length kind every case is repeated on a stream whose prefixes carry 1..3 octets more than the "
+         "value needs - valid varints no encoder of the library emits); 'frag': every fragmentation (2^(L-1) cut masks) of short "
          "two-frame streams; 'tunnel': the four sink entry points x 6 kinds writing into a sink whose driver wraps "
          "every chunk into an inner frame (one-octet or varint prefix) on a lower sink - nested encoder calls. Calls "
          "with the variable-length kind go through the lenp_* wrappers every second time. A signature is (generator, kind, length[, entry]); "
@@ -239,7 +241,9 @@ reg("C01", ["c01_typed.c"],
          "every type, register_set_unsafe and register_get, storage compared after each. Behind callbacks every 16th "
          "acceptable value meets a device that refuses one word of the register (set must fail, nothing stored), and a "
          "refused set must not have called the write callback; every fourth get behind a callback meets a device that "
-         "serves register-shaped reads only. A signature "
+         "serves register-shaped reads only; every 8th storable value behind a callback is also stored through the "
+         "unchecked variant while the device's write hook issues a checked set, on the same table, of a value the "
+         "constraint rejects (refused as ever; the unchecked value is stored). A signature "
          "is a configuration; evaluations counts values set.",
     assumptions=["for a callback-backed area 'storage unchanged' is read as 'the write callback is not invoked': a refused set (C01), a refused block write (C02) and any block read (C03) must not write the device, not even words that are taken back afterwards"],
     exhaustive={"quick": "all values of 16-bit registers in every configuration",
@@ -257,7 +261,10 @@ RT_FAMILY = ("tables from the small-scope family (seeded by index): 1-3 areas wi
              "table is written with the REG_* / MAKE_*_AREA macros of register-table.h), gaps {0,0,1,3}; flags RW / "
              "read-only / write-only / skip-defaults; memory- or callback-backed "
              "(some callback areas without write callback); 16/32/64-bit unsigned, signed and float registers at every "
-             "alignment with constraint none/min/max/range/callback/always-fail and seeded bounds; both byte orders")
+             "alignment with constraint none/min/max/range/callback/always-fail and seeded bounds; both byte orders; the "
+             "validator callback looks at the register in front of its own through register_get on the same table "
+             "whenever it is called, also while defaults are loaded, and must never be told that the table is not "
+             "initialised")
 
 reg("C02", ["c02_blockwrite.c"],
     rule="units = " + RT_FAMILY + " (400 tables quick, 6000 thorough). Per table, after out-of-band loading of "
@@ -279,7 +286,9 @@ reg("C03", ["c03_blockread.c"],
          "lowest base to two above the highest end x every length 0..span+3: one block read into an exact-size "
          "poisoned-arena buffer (windows without holes also through register_block_read_unsafe; every fifth read with a device word that cannot be read), one iteration with an always-continue callback and, for each of the first four "
          "callback positions k, iterations stopped at call k by a positive and by a negative result; finally the "
-         "whole-table idioms foreach(0, ADDRESS_MAX). A signature is a table; evaluations counts reads and "
+         "whole-table idioms foreach(0, ADDRESS_MAX). 'bigdev': a hand-written table with a 16-word memory area and a "
+         "device area of 0x12000 words (content a function of the offset), read in windows of 65534..0x12010 words "
+         "through both block-read entry points, every word compared. A signature is a table; evaluations counts reads and "
          "iterations judged.",
     assumptions=["ranges that wrap past 2^32 are not generated (semantics unstated)"])
 
@@ -295,7 +304,11 @@ reg("C04", ["c04_init.c"],
          "a description; evaluations counts descriptions initialised and judged.",
     assumptions=["the statement orders the rules, the code interleaves them per index within a stage (area order/overlap, "
                  "register order/overlap, register placement/default): the first violation in rule-major order and the "
-                 "first in stage-wise index-major order are both accepted"],
+                 "first in stage-wise index-major order are both accepted",
+                 "registers are linked and loaded in ascending order, and a validator may look at registers in front of "
+                 "its own through register_get on the table under initialisation: a default is judged 'acceptable to "
+                 "its own register' with that access working (being told 'table not initialised' there is reported); "
+                 "mutation steps that would put an area beyond 2^32 are taken back"],
     fuzz={"target": "fuzz/fz_init.c", "runs": {"quick": 320000, "thorough": 32000000}, "max_len": 1600})
 
 reg("C05", ["c05_history.c"],
